@@ -2093,6 +2093,16 @@ def r13(ctx):
                     ci = repo.resolve_class(a.id, pmod)
                     if ci is not None and ci.module.rel.endswith("datatypes.py"):
                         classes[ci.name] = ci
+    # ... and the value classes the UDP deserializer itself wraps variables in (JankStringyBytes for text-like bytes)
+    from .c01 import DES
+    dmod = repo.module(DES)
+    for g in repo.all_funcs:
+        if g.module is dmod:
+            for c in calls(g.node):
+                if isinstance(c.func, ast.Name):
+                    ci = repo.resolve_class(c.func.id, dmod)
+                    if ci is not None and ci.module.rel.endswith("datatypes.py"):
+                        classes[ci.name] = ci
     ctx.floor("C18.R13", "repo value classes constructed by TemplateDataPacker.SPECS", len(classes), 3)
     fm = repo.cls("HippoLLSDBaseFormatter", LLSD)
     init = repo.lookup_method(fm, "__init__")
@@ -2118,12 +2128,16 @@ def r13(ctx):
     for name, ci in sorted(classes.items()):
         form = enc.get(name)
         lost = form in ("ARRAY", "MAP", "STRING")
+        if form == "BINARY":
+            # content survives, but a repo subclass of bytes comes back as plain bytes
+            lost = any(b.split(".")[-1] in ("bytes", "bytearray") for b in ci.base_names)
         if form is None:
             ctx.note(f"C18.R13: {name} has no LLSD formatter row; the third-party default decides its export form")
             continue
         ctx.ob("C18.R13", f"export/import keeps the type of {name} block values", (not lost) or retyped, ctx.w(lmod, init.node),
-               f"{name} is exported as an LLSD {form.lower()} and comes back as a plain list: Message.from_dict does not re-type "
-               f"values by template, so the re-imported message differs (to_dict, `== (x, y, z)` filters on it)")
+               f"{name} is exported as an LLSD {form.lower()} and comes back as a plain "
+               f"{'bytes' if form == 'BINARY' else 'list'}: Message.from_dict does not re-type values by template, so the "
+               f"re-imported message differs (to_dict, `== (x, y, z)` / `== \"text\"` filters on it)")
 
 
 def r14(ctx):
